@@ -334,6 +334,9 @@ func (s *Script) Comment(c string) {
 func (s *Script) Render(pos int, goal Term, wantModel bool, extra []string) string {
 	var b strings.Builder
 	b.WriteString(Prelude)
+	if s.usesSumlen(pos, goal.S) {
+		b.WriteString(sumlenAxiom)
+	}
 	for _, p := range s.preamble {
 		b.WriteString(p)
 		b.WriteByte('\n')
@@ -373,6 +376,27 @@ func (s *Script) RenderSat(pos int, cond Term) string {
 	return b.String()
 }
 
+// sumlenAxiom is added only to scripts that mention sumlen: a quantifier over an array sort makes the newer z3 give
+// up early ("incomplete (theory array)") on goals that have nothing to do with it.
+const sumlenAxiom = "(assert (forall ((r (Array Int Slice)) (lo Int) (hi Int)) (! (and (>= (sumlen r lo hi) 0) (=> (<= hi lo) (= (sumlen r lo hi) 0))) :pattern ((sumlen r lo hi)))))\n"
+
+func (s *Script) usesSumlen(pos int, goal string) bool {
+	if strings.Contains(goal, "sumlen") {
+		return true
+	}
+	for _, l := range s.lines[:pos] {
+		if strings.Contains(l, "sumlen") {
+			return true
+		}
+	}
+	for _, l := range s.preamble {
+		if strings.Contains(l, "sumlen") {
+			return true
+		}
+	}
+	return false
+}
+
 // Prelude: fixed datatypes and arithmetic helpers shared by every obligation.
 const Prelude = `(set-option :produce-models true)
 (set-logic ALL)
@@ -385,7 +409,6 @@ const Prelude = `(set-option :produce-models true)
 (define-fun gomod ((a Int) (b Int)) Int (- a (* b (godiv a b))))
 (define-fun wf-slice ((s Slice)) Bool (and (>= (s-off s) 0) (>= (s-len s) 0) (<= (s-len s) (s-cap s)) (<= (s-cap s) 9223372036854775807) (>= (s-arr s) 0) (=> (= (s-arr s) 0) (and (= (s-cap s) 0) (= (s-off s) 0)))))
 (declare-fun sumlen ((Array Int Slice) Int Int) Int)
-(assert (forall ((r (Array Int Slice)) (lo Int) (hi Int)) (! (and (>= (sumlen r lo hi) 0) (=> (<= hi lo) (= (sumlen r lo hi) 0))) :pattern ((sumlen r lo hi)))))
 (define-fun nil-slice () Slice (mk-slice 0 0 0 0))
 (define-fun nil-iface () Iface (mk-iface 0 0))
 `
